@@ -3,7 +3,14 @@
 set -e
 cd "$(dirname "$0")"
 mkdir -p .work evidence replays lean/QV/Gen
-for g in tools/gen_*.py; do python3 "$g"; done
-(cd lean && lake build)
 (cd harness && CARGO_NET_OFFLINE=true cargo build --release --offline)
+# the generation steps the checks declare (tools/qvconfig.py "gen"), each once; every ./check re-runs its own
+for g in $(python3 -c "
+import sys; sys.path.insert(0, 'tools'); import qvconfig
+seen = []
+for p in qvconfig.PROPS.values():
+    for g in p.get('gen', []):
+        if g.startswith('gen_') and g not in seen: seen.append(g)
+print(' '.join(seen))"); do python3 "tools/$g"; done
+(cd lean && lake build)
 echo "setup done"
